@@ -191,7 +191,7 @@ func init() {
 		Rule: "case k draws a document of the SPDX-representable class: shape k mod 15 of the catalogue (singleton, chain, star, diamond, DAG, cycle, self-loop, several edges per source/type, several roots, no root, complete, all roots, random), " +
 			"edge type 1+k mod 44 and checksum algorithm k mod 16 forced to occur, package and file nodes, every SPDX-carried attribute independently present, two-purpose packages, dates with nanoseconds, unicode text without JSON escapes; " +
 			"written with indentation c01Indents[k mod 6] through writer.WriteStreamWithOptions, read back with reader.ParseStream, projections compared (node set, typed edge triples, roots, per-node attributes under the NOASSERTION/NONE conventions); a second write/read pass must change nothing. " +
-			"Cases 0-5 re-serialize the repository's real SPDX 2.3 files twice. distinct = hash of the written bytes; non-trivial = >=2 nodes, >=1 edge and >=3 populated attributes on some node.",
+			"Cases 0-5 re-serialize the repository's real SPDX 2.3 files twice. A quarter of the documents use short identifiers over {a,1,-} that are prefixes, suffixes and concatenations of one another, a quarter store their edges split into several records per source and type interleaved with other sources'; one date in twelve is the epoch. distinct = hash of the written bytes; non-trivial = >=2 nodes, >=1 edge and >=3 populated attributes on some node.",
 		Assumptions: []string{"ids from the SPDX idstring alphabet; edge type != UNKNOWN; hash algorithm != MD2/UNKNOWN; external-reference types limited to the 8 SPDX carries natively with non-empty URL; supplier/originator names non-empty", "Node.licenses is not compared (SPDX packages have no licence list)"},
 		NCases: func(tier string) int {
 			if tier == "thorough" {
